@@ -480,6 +480,10 @@ class ConfigWalk:
     def stub(self, config: "Config"):
         return config
 
+    def dictitems(self, x: dict):
+        """The entries of a dictionary, in the order they are visited"""
+        return x.items()
+
     def __call__(self, x):
         if isinstance(x, Config):
             info = x.__xpm__  # type: ConfigInformation
@@ -539,7 +543,7 @@ class ConfigWalk:
 
         if isinstance(x, dict):
             result = {}
-            for key, value in x.items():
+            for key, value in self.dictitems(x):
                 assert isinstance(key, (str, float, int))
                 with self.map(key):
                     result[key] = self(value)
@@ -781,6 +785,12 @@ class ConfigInformation:
         class Sealer(ConfigWalk):
             def preprocess(self, config: Config):
                 return not config.__xpm__._sealed, config
+
+            def dictitems(self, x: dict):
+                # As for the identifier, the insertion order does not matter:
+                # a configuration shared by two entries is generated under
+                # the smallest key
+                return sorted(x.items(), key=lambda item: item[0])
 
             def postprocess(self, stub, config: Config, values):
                 # Generate values
